@@ -4,7 +4,7 @@ from vlib import Case, hx, unhx
 
 HARNESS = "rx_driver"
 LEAN_MODULES = ["ViaProofs.C13"]
-LEMMA_MODULES = ['ViaProofs.ConnLemmas']
+LEMMA_MODULES = ['ViaProofs.ConnLemmas', 'ViaProofs.Trans.ENC']
 REQUIRED_THEOREMS = ['Via.C13', 'Via.C13_refuse_when_blank']
 LEVEL = "proof"
 LEVEL_TEXT = ('PROOF for every header string, status, reason and length that a response the library agrees to send has exactly one empty line, at the end, and that a string which would introduce one (or is not a sequence of terminated lines) is refused; correspondence exhaustive over short strings; the refusal is also exercised through every send overload of the real http_connection for GET and HEAD.')
